@@ -14,6 +14,7 @@ def isDebit (o : Nat) : Tx → Bool
 def isConsumer (k : Nat) : Tx → Bool
   | .vote k' _ _ _ => k' == k
   | .retv k' _ => k' == k
+  | .renew k' _ _ _ _ => k' == k
   | _ => false
 
 /-- environment assumptions on one transaction (what the rest of the node guarantees):
@@ -49,6 +50,7 @@ def chkA (o : Nat) (a0? : Option Acct) : Tx → Prop
 def chkS (retvFee : Int) (k : Nat) (t0? : Option Stake) : Tx → Prop
   | .vote k' _ vs _ => k' = k → ∃ t0, t0? = some t0 ∧ (∀ v ∈ vs, 0 < v) ∧ sumI vs ≤ t0.rights - t0.used
   | .retv k' v => k' = k → retvFee < v ∧ ∃ t0, t0? = some t0 ∧ v ≤ t0.rights - t0.used
+  | .renew k' oldLock amount _ _ => k' = k → ∃ t0, t0? = some t0 ∧ (⟨oldLock, amount⟩ : Vote) ∈ t0.live
   | _ => True
 
 theorem fold_acct_ok (P : Params) (h o : Nat) (a0? : Option Acct) :
@@ -159,6 +161,7 @@ theorem fold_acct_ok (P : Params) (h o : Nat) (a0? : Option Acct) :
           simpa [projA, ho] using hok
         | stake k v => simpa [projA] using hok
         | vote k lock vs bad => simpa [projA] using hok
+        | renew k ol am nl bo => simpa [projA] using hok
         | retv k v => simpa [projA] using hok
       · -- tracking preserved: available can only have grown
         intro hone a0 ha0
@@ -191,6 +194,7 @@ theorem fold_acct_ok (P : Params) (h o : Nat) (a0? : Option Acct) :
           exact ⟨a, by simp [projA, ho], hav⟩
         | stake k v => exact ⟨a, by simp [projA], hav⟩
         | vote k lock vs bad => exact ⟨a, by simp [projA], hav⟩
+        | renew k ol am nl bo => exact ⟨a, by simp [projA], hav⟩
         | retv k v => exact ⟨a, by simp [projA], hav⟩
 
 
@@ -207,7 +211,7 @@ theorem fold_stake_ok (k : Nat) (retvFee : Int) (t0? : Option Stake) :
       (∀ tx ∈ txs, envOK tx) → (∀ tx ∈ txs, chkS retvFee k t0? tx) →
       (txs.filter (isConsumer k)).length ≤ 1 → OKs t? →
       ((txs.filter (isConsumer k)).length = 1 → ∀ t0, t0? = some t0 →
-          ∃ t, t? = some t ∧ t0.rights - t0.used ≤ t.rights - t.used) →
+          ∃ t, t? = some t ∧ t0.rights - t0.used ≤ t.rights - t.used ∧ t.live = t0.live) →
       OKs (txs.foldl (fun t? tx => projS k tx t?) t?) := by
   intro txs
   induction txs with
@@ -231,7 +235,7 @@ theorem fold_stake_ok (k : Nat) (retvFee : Int) (t0? : Option Stake) :
           have hk : k' = k := by simpa [isConsumer] using hd
           subst hk
           obtain ⟨t0, ht0, hpos, hsum⟩ := hc rfl
-          obtain ⟨t, ht, hfree⟩ := htrack hnow t0 ht0
+          obtain ⟨t, ht, hfree, _⟩ := htrack hnow t0 ht0
           subst ht; subst ht0
           simp only [projS, if_true, Option.map, OKs, StakeOK, stakeStep] at hok ⊢
           obtain ⟨h1, h2, h3, h4⟩ := hok
@@ -247,11 +251,29 @@ theorem fold_stake_ok (k : Nat) (retvFee : Int) (t0? : Option Stake) :
           have hk : k' = k := by simpa [isConsumer] using hd
           subst hk
           obtain ⟨hv, t0, ht0, hle⟩ := hc rfl
-          obtain ⟨t, ht, hfree⟩ := htrack hnow t0 ht0
+          obtain ⟨t, ht, hfree, _⟩ := htrack hnow t0 ht0
           subst ht; subst ht0
           simp only [projS, if_true, OKs, StakeOK, stakeStep] at hok ⊢
           obtain ⟨h1, h2, h3, h4⟩ := hok
           exact ⟨h1, by omega, h3, h4⟩
+        | renew k' ol am nl bo =>
+          have hk : k' = k := by simpa [isConsumer] using hd
+          subst hk
+          obtain ⟨t0, ht0, hmem0⟩ := hc rfl
+          obtain ⟨t, ht, _, hlive⟩ := htrack hnow t0 ht0
+          subst ht; subst ht0
+          have hmem : (⟨ol, am⟩ : Vote) ∈ t.live := hlive ▸ hmem0
+          simp only [projS, if_true, Option.map, OKs, StakeOK, stakeStep] at hok ⊢
+          obtain ⟨h1, h2, h3, h4⟩ := hok
+          have hs := sumV_erase ⟨ol, am⟩ t.live hmem
+          refine ⟨h1, h2, ?_, ?_⟩
+          · rw [sumV_append, hs]; simp [sumV]; omega
+          · intro v hv
+            rcases List.mem_append.mp hv with hv | hv
+            · exact h4 v (List.mem_of_mem_erase hv)
+            · have : v = ⟨nl, am⟩ := by simpa using hv
+              subst this
+              exact h4 ⟨ol, am⟩ hmem
         | _ => simp [isConsumer] at hd
       · intro hone; omega
     · have hd' : isConsumer k tx = false := by simpa using hd
@@ -279,33 +301,39 @@ theorem fold_stake_ok (k : Nat) (retvFee : Int) (t0? : Option Stake) :
         | retv k' v =>
           have hk : ¬ k' = k := by simpa [isConsumer] using hd'
           simpa [projS, hk] using hok
+        | renew k' ol am nl bo =>
+          have hk : ¬ k' = k := by simpa [isConsumer] using hd'
+          simpa [projS, hk] using hok
         | reg o amount lock v2 => simpa [projS] using hok
         | dep o v => simpa [projS] using hok
         | cancel o => simpa [projS] using hok
         | ret o inp tinp change out => simpa [projS] using hok
         | pen o p => simpa [projS] using hok
       · intro hone t0 ht0
-        obtain ⟨t, ht, hfree⟩ := htrack (by omega) t0 ht0
+        obtain ⟨t, ht, hfree, hlive⟩ := htrack (by omega) t0 ht0
         subst ht; subst ht0
         cases tx with
         | stake k' v =>
           simp only [projS]
           simp only [envOK] at he
           split
-          · refine ⟨_, rfl, ?_⟩
+          · refine ⟨_, rfl, ?_, hlive⟩
             simp only [stakeStep]; omega
-          · exact ⟨t, rfl, hfree⟩
+          · exact ⟨t, rfl, hfree, hlive⟩
         | vote k' lock vs bad =>
           have hk : ¬ k' = k := by simpa [isConsumer] using hd'
-          exact ⟨t, by simp [projS, hk], hfree⟩
+          exact ⟨t, by simp [projS, hk], hfree, hlive⟩
         | retv k' v =>
           have hk : ¬ k' = k := by simpa [isConsumer] using hd'
-          exact ⟨t, by simp [projS, hk], hfree⟩
-        | reg o amount lock v2 => exact ⟨t, by simp [projS], hfree⟩
-        | dep o v => exact ⟨t, by simp [projS], hfree⟩
-        | cancel o => exact ⟨t, by simp [projS], hfree⟩
-        | ret o inp tinp change out => exact ⟨t, by simp [projS], hfree⟩
-        | pen o p => exact ⟨t, by simp [projS], hfree⟩
+          exact ⟨t, by simp [projS, hk], hfree, hlive⟩
+        | renew k' ol am nl bo =>
+          have hk : ¬ k' = k := by simpa [isConsumer] using hd'
+          exact ⟨t, by simp [projS, hk], hfree, hlive⟩
+        | reg o amount lock v2 => exact ⟨t, by simp [projS], hfree, hlive⟩
+        | dep o v => exact ⟨t, by simp [projS], hfree, hlive⟩
+        | cancel o => exact ⟨t, by simp [projS], hfree, hlive⟩
+        | ret o inp tinp change out => exact ⟨t, by simp [projS], hfree, hlive⟩
+        | pen o p => exact ⟨t, by simp [projS], hfree, hlive⟩
 
 /-! ### end of block -/
 
